@@ -333,3 +333,24 @@ CHECKS["C16"] = {
     ],
     "floors": {"C16/mux": {"delivered": 0.2, "prefix_split_across_writes": 0.1, "routes_registered": 0.3}, "C16/header": {"concurrent_writers": 0.4, "first_write_parked": 0.4}},
 }
+
+CHECKS["C18"] = {
+    "pkg": "./compat",
+    "level": "exploration",
+    "rule": ("wire: sequences of 1..10 packets as either version's stream layer emits them (kinds 1..7, ids increasing with stream changes, payload 0..300 KB split by each version's own SplitN with sizes 1/5/100/64 KiB/default/unsplit, "
+             "writer buffers 1/50/default/64 KiB, frames under the v0.0.17 scanner's 1 MiB limit) plus control-bit packets from the new side (KindCancel and unknown kinds 0/9/33/63, single- and multi-frame) are encoded by the current writer and by the "
+             "verbatim v0.0.17 writer and read back by both readers under chunkings 1/7/4096/all: new-encode must decode under v0.0.17 to the same packets minus the control-bit ones and under the current reader to the same plus them; old-encode must decode identically under both. "
+             "metadata: maps of valid-UTF-8 strings (empty, long, special) are encoded by each version and decoded by the other to the same map. "
+             "end_to_end: a current client against a v0.0.17 server and a v0.0.17 client against a current server over the simulated transport (drawn chunking): 1..4 unary/stream echo RPCs with payloads up to 70 KB; the current client cancels mid-stream in both modes "
+             "(the soft cancel's control packet must leave the v0.0.17 side undisturbed); unknown-kind control packets are injected between RPCs. "
+             "Non-trivial: >= 2 packets with a multi-frame or control packet (wire); a non-empty map (metadata); >= 2 RPCs, a soft cancel or an injected control packet (end to end)."),
+    "assumptions": ["verif/old/drpc is a verbatim copy of storj.io/drpc@v0.0.17 from the module cache with only the import path renamed (it needs github.com/gogo/protobuf and monkit, both in the module cache)",
+                    "metadata with invalid UTF-8 is outside what released peers can exchange (v0.0.17 uses protobuf string fields) and is counted as trivial",
+                    "after a soft cancel a v0.0.17 server keeps running its handler (it skips the cancel packet by design); only 'undisturbed' is asserted there"],
+    "subs": [
+        {"test": "TestC18Wire", "prop": "C18/wire", "quick": 16000, "thorough": 800000, "shards_quick": 16, "shards_thorough": 16},
+        {"test": "TestC18Metadata", "prop": "C18/metadata", "quick": 40000, "thorough": 2000000, "shards_quick": 8, "shards_thorough": 16},
+        {"test": "TestC18EndToEnd", "prop": "C18/end_to_end", "quick": 4000, "thorough": 200000, "shards_quick": 16, "shards_thorough": 16, "gomaxprocs": 1},
+    ],
+    "floors": {"C18/wire": {"control_packets": 0.3, "multi_frame": 0.3}, "C18/end_to_end": {"new_client_old_server": 0.3, "old_client_new_server": 0.3, "soft_cancel_ignored_by_old_peer": 0.03, "unknown_control_packet_injected": 0.2}},
+}
